@@ -248,3 +248,45 @@ Definition probe_guard_F6 (s l : table) (p : probe) : bool := existsb (guard_F6_
 (* short constructors for the generated file *)
 Definition mk_opt n r c := {| o_name := n; o_req := r; o_constr := c |}.
 Definition mk_mech k t h r o := {| m_kind := k; m_type := t; m_has_config := h; m_cfg_req := r; m_opts := o |}.
+
+(* ------------------------------------------------------------------ agreement that decides acceptance *)
+
+(** requiredness as far as acceptance is concerned: "yes" against anything else matters *)
+Definition req_acc (a b : req) : bool :=
+  match a, b with
+  | RYes, RYes => true
+  | RYes, _ | _, RYes => false
+  | _, _ => true
+  end.
+
+(** row agreement without wildcards *)
+Definition strict_row (s l : table) (r : row) : bool :=
+  match r with
+  | RType k ty =>
+      match find_mech s k ty, find_mech l k ty with
+      | Some a, Some b => Bool.eqb (m_cfg_req a) (m_cfg_req b)
+      | _, _ => false
+      end
+  | RCfg _ _ => true
+  | ROpt k ty n =>
+      match find_mech s k ty, find_mech l k ty with
+      | Some a, Some b =>
+          match find_opt a n, find_opt b n with
+          | Some x, Some y => constr_eqb (o_constr x) (o_constr y) && req_acc (o_req x) (o_req y)
+          | _, _ => false
+          end
+      | _, _ => true
+      end
+  end.
+
+Definition strict_ok (s l : table) : bool := forallb (strict_row s l) (all_rows s l).
+
+(** the tables without the value classes (the syntax of duration values, where
+    schema and loader are known to differ: C20-F6); the identity once that is repaired *)
+Definition erase_constr (c : constr) : constr := match c with CClass _ _ _ => CAny | _ => c end.
+
+Definition erase_classes (t : table) : table :=
+  if fixed_F6 then t else
+  map (fun m => {| m_kind := m_kind m; m_type := m_type m; m_has_config := m_has_config m; m_cfg_req := m_cfg_req m;
+                   m_opts := map (fun o => {| o_name := o_name o; o_req := o_req o; o_constr := erase_constr (o_constr o) |})
+                                 (m_opts m) |}) t.
